@@ -185,6 +185,12 @@ def run(ctx, chk):
     check_flatten_reshape(ctx, chk)
     check_order(ctx, chk)
     check_reinit(ctx, chk)
+    from .rowprov import check_positions
+    nrow = check_positions(ctx, chk, "C09.rows",
+                           {"nasim.envs.state", "nasim.envs.network", "nasim.envs.observation",
+                            "nasim.envs.environment", "nasim.envs.host_vector"},
+                           {"tensor"}, "the state / observation tensor")
+    chk.floor("C09.rows", nrow, 5, "row subscripts of the tensor")
     check_order_stable(ctx, chk)
     check_onehot_range(ctx, chk)
     chk.assume("'decoding the initial state reproduces every host definition' is concluded from "
